@@ -108,4 +108,10 @@ MUTANTS = [
     ("substage_objective_dropped", SM, "        opti.add_objective(self.eval(stage, stage._objective))", "        opti.add_objective(self.eval(stage, stage._objective) if (stage is stage.master or len(stage.master._stages)<3) else 0)", ["C12"]),
     ("substage_T_from_master", SM, "        self.T = self.eval(stage, stage._T)\n        self.t0 = self.eval(stage, stage._t0)", "        self.T = self.eval(stage, stage._T)\n        self.t0 = self.eval(stage, stage._t0 if len(stage.master._stages)<2 else stage.master._stages[0]._t0)", ["C12"]),
     ("clone_initial_guess_lost", ST, "        ret._initial = HashOrderedDict(zip(res[n_constr+1:], self._initial.values()))", "        ret._initial = HashOrderedDict()", ["C12"]),
+    # --- C16
+    ("der_drops_partial_t", ST, "t=self.t)[\"ode\"], 1, *der_symbols))", "t=self.t)[\"ode\"], 0, *der_symbols))", ["C16"]),
+    ("der_ode_at_wrong_time", ST, "return jtimes(expr, vertcat(self.x, self.t, *nominal_symbols), vertcat(ode(x=self.x, u=self.u, z=self.z, p=vertcat(self.p, self.v), t=self.t)[\"ode\"]", "return jtimes(expr, vertcat(self.x, self.t, *nominal_symbols), vertcat(ode(x=self.x, u=self.u, z=self.z, p=vertcat(self.p, self.v), t=0*self.t)[\"ode\"]", ["C16"]),
+    ("control_chain_scaled", ST, "            self.set_der(u, helper_u)", "            self.set_der(u, 2*helper_u if order==2 else helper_u)", ["C16"]),
+    ("signal_der_no_order_check", ST, "            if self.order==0:\n                raise Exception(\"Cannot differentiate \" + self.symbol.name() + \" any further.\")\n            der_symbol = MX.sym(\"der_\"+self.symbol.name(), self.symbol.sparsity())\n            self.derivative = AbstractSignal(self.order-1)", "            der_symbol = MX.sym(\"der_\"+self.symbol.name(), self.symbol.sparsity())\n            self.derivative = AbstractSignal(self.order-1)", ["C16"]),
+    ("der_no_time_branch_wrong_gradient", ST, "                return jtimes(expr, self.x, ode(x=self.x, u=self.u, z=self.z, p=vertcat(self.p, self.v), t=self.t)[\"ode\"])", "                return jtimes(expr, self.x, ode(x=self.x, u=self.u, z=self.z, p=vertcat(self.p, self.v), t=self.t+1)[\"ode\"])", ["C16"]),
 ]
